@@ -41,6 +41,7 @@ class Snap:
     open_ids: List[str]
     loans: Dict[str, Any]                     # id -> LoanInfo
     prices: Dict[str, D] = dataclasses.field(default_factory=dict)   # pair name -> last close as the exchange sees it
+    loans_stale: bool = False                 # get_loans() raised: `loans` is the last known listing
 
     def total(self, s: str) -> D:
         a, h, b = self.bal.get(s, (ZERO, ZERO, ZERO))
@@ -112,6 +113,7 @@ class Run:
         self.first_sight: set = set()
         self.interest_seen: Dict[str, Tuple[Any, D, Any]] = {}
         self.anomalies: List[str] = []
+        self.before_clock: Dict[Any, Snap] = {}
         self.listing_stride = 6        # full listing comparison on every n-th snapshot once there are many orders
         self.offgrid_loans = False     # a loan amount off the precision grid was requested (C08's premise is void)
         self.symbols: Dict[str, int] = sc["symbols"]
@@ -373,7 +375,17 @@ class Run:
                 bal[s] = (b.available, b.hold, b.borrowed)
         orders = {o.id: o for o in await e.get_orders()}
         open_ids = [o.id for o in await e.get_open_orders()]
-        loans = {lo.id: lo for lo in await e.get_loans()}
+        loans_stale = False
+        try:
+            loans = {lo.id: lo for lo in await e.get_loans()}
+        except core_errors.Error as ex:
+            # e.g. NoPrice while valuing the interest of an open loan: the listing itself is unusable. Keep the last
+            # known loans and skip the loan-based monitors for this snapshot (the balance-based ones still run).
+            loans = dict(self.prev.loans) if self.prev is not None else {}
+            loans_stale = True
+            self.stats["get_loans_raised"] += 1
+            if self.stats["get_loans_raised"] == 1:
+                self.anomalies.append(f"get_loans raised {type(ex).__name__}: {ex}")
         clock = self.d.now() if self.d.now_available else None
         prices: Dict[str, D] = {}
         for pname, pair in self.pairs.items():
@@ -383,6 +395,9 @@ class Run:
             except core_errors.Error:
                 pass
         snap = Snap(self.seq, clock, bal, orders, open_ids, loans, prices)
+        snap.loans_stale = loans_stale
+        if clock is not None and clock not in self.before_clock and self.prev is not None:
+            self.before_clock[clock] = self.prev     # account state before anything of this clock value was handled
         self.stats["snapshots"] += 1
         if check:
             try:
@@ -433,7 +448,7 @@ class Run:
         before = await self.snapshot(("pre-call", name))
         clock = before.clock
         loan_before_info = None
-        if name == "repay_loan" and args["id"] in before.loans:
+        if name == "repay_loan" and args["id"] in before.loans and not before.loans_stale:
             loan_before_info = before.loans[args["id"]]
         try:
             result = await fn()
@@ -519,6 +534,7 @@ class Run:
             syms = set(before.bal) | set(after.bal)
             R = {s: after.hold(s) - before.hold(s) for s in syms if after.hold(s) != before.hold(s)}
             self.rem[oid] = dict(R)
+            self.meta[oid]["R"] = dict(R)
             if not hasattr(self, "first_reservation"):
                 self.first_reservation = dict(R)
             self.last_ev[oid] = (ZERO, ZERO, ZERO)
@@ -550,7 +566,10 @@ class Run:
                        f"create_loan({_fmt(args)}): balance {before.bal.get(s)} -> {after.bal.get(s)}")
             await self.check_margin_after_grant(name, args, after)
         elif name == "repay_loan":
-            self.check_repay(args["id"], before, after, loan_before_info)
+            if before.loans_stale or after.loans_stale:
+                self.stats["repay_unchecked_stale_listing"] += 1
+            else:
+                self.check_repay(args["id"], before, after, loan_before_info)
 
     def totals_unchanged(self, name: str, before: Snap, after: Snap) -> None:
         closed = [i for i, lo in after.loans.items() if not lo.is_open and (i not in before.loans or before.loans[i].is_open)]
@@ -789,7 +808,7 @@ class Run:
             a, h, b = snap.bal.get(s, (ZERO, ZERO, ZERO))
             if a < 0 or h < 0 or b < 0:
                 self.v("C02", "negative_balance", f"{s}: available {a} hold {h} borrowed {b} at {where}")
-            if b != open_principal.get(s, ZERO):
+            if b != open_principal.get(s, ZERO) and not snap.loans_stale:
                 self.v("C02", "borrowed_ne_open_principal",
                        f"{s}: borrowed {b} but open loans sum to {open_principal.get(s, ZERO)} at {where}")
             p = self.symbols.get(s)
@@ -861,13 +880,20 @@ class Run:
                 for s, val in self.rem.get(i, {}).items():
                     exp_hold[s] += val
             for s in set(exp_hold) | set(snap.bal):
+                if snap.hold(s) < exp_hold.get(s, ZERO):
+                    # C02, "refused instead": what is reserved for the open orders is gone, i.e. some fill was paid
+                    # with funds the account had set aside for another order instead of being refused
+                    self.v("C02", "fill_paid_with_funds_reserved_for_other_orders",
+                           f"{s}: only {snap.hold(s)} left on hold while the open orders' remaining reservations sum to "
+                           f"{exp_hold.get(s, ZERO)} at {where}")
                 if snap.hold(s) != exp_hold.get(s, ZERO):
                     self.v("C06", "hold_ne_open_reservations",
                            f"{s}: {snap.hold(s)} on hold, open orders' remaining reservations sum to "
                            f"{exp_hold.get(s, ZERO)} at {where}", mechanism=self._classify_stuck_hold(snap))
                     break
         # ---- C11: loans
-        self.check_loans(snap, interval)
+        if not snap.loans_stale and not (self.prev is not None and self.prev.loans_stale):
+            self.check_loans(snap, interval)
 
     def _classify_stuck_hold(self, snap: Snap) -> str:
         # known mechanism (C06): an order was closed while the margin rule rejected the hold release
@@ -1049,7 +1075,7 @@ class Run:
                    f"{[str(lo.borrowed_amount) for lo in cands]}; repaid "
                    f"{[str(snap.loans[i].borrowed_amount) for i in got_closed]}, largest-first-as-funds-allow gives "
                    f"{[str(snap.loans[i].borrowed_amount) for i in exp_closed]}",
-                   mechanism="repay_rejected_by_margin_rule" if len(got_closed) < len(exp_closed) else "")
+                   mechanism=self._classify_survivor() if len(got_closed) < len(exp_closed) else "")
 
     def _last_close_key(self, a: str, b: str, clock) -> Any:
         for pname, inv in ((f"{a}/{b}", False), (f"{b}/{a}", True)):
@@ -1160,6 +1186,11 @@ class Run:
     def check_bars_offline(self, end: Snap) -> None:
         """C08 liquidity walk, C05 fill-or-kill deadline, C04 completeness - per (pair, bar), from the event log."""
         ample = self.sc.get("class") in ("ample", "micro_c04")
+        for a in self.anomalies:
+            if "Not enough liquidity" in a:
+                self.v("C08", "liquidity_overdrawn_inside_exchange",
+                       f"the liquidity model refused an amount the order manager had already booked: {a[:160]}")
+                break
         fills: Dict[Tuple[str, Any], Dict[str, D]] = collections.defaultdict(dict)
         close_when: Dict[str, Any] = {}
         for oid, evs in self.events.items():
@@ -1192,6 +1223,7 @@ class Run:
                     if total > L:
                         self.v("C08", "liquidity_exceeded", f"{pname} bar {when}: filled {total} > {L} ({self.liq[0]}% of {vol})")
                     rem = L
+                    released: Dict[str, D] = collections.defaultdict(D)   # holds freed by orders killed earlier in this bar
                     for i in live:
                         m = self.meta[i]
                         got = f.get(i, ZERO)
@@ -1205,6 +1237,11 @@ class Run:
                                    f"{m['kind']} needing {pending} filled {got} with only {rem} left in bar {when}")
                         if got > 0 and len(live) > 1:
                             self.sig.add(("competing", min(len(live), 6), got < pending))
+                        if m["kind"] == "market" and got == 0 and 0 < pending <= rem:
+                            self.check_fits_but_unfilled(i, m, pname, when, (o_, h, low, c, vol), pending, rem, fills, released)
+                        if m["kind"] in ("market", "stop") and got == 0 and close_when.get(i) == when:
+                            for sym, val in self._reservation_before(i, when).items():
+                                released[sym] += val
                         rem -= got
                 # C05: market / stop orders do not survive the first bar of their pair after acceptance
                 for i in live:
@@ -1249,6 +1286,77 @@ class Run:
                         if not must and got != 0 and m["kind"] in ("limit", "stop"):
                             self.v("C04", "filled_without_trigger",
                                    f"{m['kind']} {m['side']} limit={m['limit']} stop={m['stop']}: bar O{o_} H{h} L{low} C{c} filled {got}")
+
+    def _reservation_before(self, oid: str, when) -> Dict[str, D]:
+        """Replays the order's fills before `when` on its initial reservation (shadow of the hold it still owns)."""
+        m = self.meta[oid]
+        b, qs = m["pair"].split("/")
+        buy = m["side"] == "buy"
+        rem = dict(m.get("R", {}))
+        pf = (ZERO, ZERO, ZERO)
+        for w2, oi in self.events[oid]:
+            if w2 >= when:
+                break
+            fee = sum(oi.fees.values(), ZERO)
+            db, dq, df = oi.amount_filled - pf[0], oi.quote_amount_filled - pf[1], fee - pf[2]
+            pf = (oi.amount_filled, oi.quote_amount_filled, fee)
+            net = {b: (db if buy else -db), qs: ((-dq if buy else dq) - df)}
+            for sym, n in net.items():
+                if n < 0 and sym in rem:
+                    rem[sym] = max(ZERO, rem[sym] + n)
+        return rem
+
+    def check_fits_but_unfilled(self, oid, m, pname, when, bar, pending, rem_liq, fills, released) -> None:
+        """C08: a market order that fits what is left of the bar's liquidity is filled, funds permitting. 'Funds
+        permitting' is decided conservatively: the order's own reservation plus a lower bound of the free funds at
+        its turn must cover an upper bound of its cost."""
+        before = self.before_clock.get(when)
+        if before is None or self.lend is not None:
+            return
+        o_, h, low, c, vol = bar
+        b, qs = pname.split("/")
+        bp, qp = self.pair_prec(pname)
+        own = self._reservation_before(oid, when)
+        # lower bound of the free quote / base funds: what was available before this clock value, minus whatever any
+        # fill of this clock value spent beyond the filled order's own reservation
+        spent: Dict[str, D] = collections.defaultdict(D)
+        for (pn, w2), per_order in fills.items():
+            if w2 != when:
+                continue
+            pb, pq = pn.split("/")
+            for oid2 in per_order:
+                m2 = self.meta[oid2]
+                r2 = self._reservation_before(oid2, when)
+                for w3, oi in self.events[oid2]:
+                    if w3 == when:
+                        prev_f = [x for (w4, x) in self.events[oid2] if w4 < when]
+                        p0 = prev_f[-1] if prev_f else None
+                        dq = oi.quote_amount_filled - (p0.quote_amount_filled if p0 else ZERO)
+                        db = oi.amount_filled - (p0.amount_filled if p0 else ZERO)
+                        dfee = sum(oi.fees.values(), ZERO) - (sum(p0.fees.values(), ZERO) if p0 else ZERO)
+                        if m2["side"] == "buy":
+                            spent[pq] += max(ZERO, dq + dfee - r2.get(pq, ZERO))
+                        else:
+                            spent[pb] += max(ZERO, db - r2.get(pb, ZERO))
+                            spent[pq] += max(ZERO, dfee - dq - r2.get(pq, ZERO))
+                        break
+        free = {s: before.avail(s) - spent.get(s, ZERO) + released.get(s, ZERO) for s in (b, qs)}
+        impact = (self.liq[1] / 100) if self.liq else ZERO
+        if m["side"] == "buy":
+            cost = q(pending * h * (1 + impact), qp, decimal.ROUND_UP) + unit(qp)
+            fee = q(max(cost * self.fee[0] / 100, self.fee[1]), qp, decimal.ROUND_UP) if self.fee else ZERO
+            ok = own.get(qs, ZERO) + free[qs] >= cost + fee
+        else:
+            proceeds = q(pending * low * (1 - impact), qp, decimal.ROUND_DOWN)
+            fee = q(max(q(pending * h, qp) * self.fee[0] / 100, self.fee[1]), qp, decimal.ROUND_UP) if self.fee else ZERO
+            ok = own.get(b, ZERO) + free[b] >= pending and (fee <= proceeds or own.get(qs, ZERO) + free[qs] >= fee - proceeds) \
+                and proceeds > 0
+        self.stats["fits_checks"] += 1
+        if ok and q(pending * low, qp) > 0:
+            self.stats["fits_and_fundable_but_unfilled"] += 1
+            self.v("C08", "order_that_fits_not_filled",
+                   f"market {m['side']} of {pending} {pname} fits the {rem_liq} left in bar {when} (V{vol}) and its funds "
+                   f"were sufficient (reservation {own}, free {free}), yet it was not filled")
 
     def _classify_survivor(self) -> str:
         for a in self.anomalies:
